@@ -10,6 +10,8 @@ SPECIAL_NAMES = [
     "a", "b", ".a", "a.", "a.b", "a.b.c", "...", "..a", "a..", ".a.b", " ", " a", "a ", "a b.txt",
     "%Name()", "{x}", "a|b", "x'y", 'x"y', "back\\slash", "(p)", "-dash", "--", "é.ñ", "中.文", ".hidden.tar.gz",
     "a\nb", "tab\tname", "$(x)", "`x`", "*", "?", "[a]", "~", "#", "a=b", "a,b", "\\", "\\\\", "'", '"',
+    "__init__.py", "notes__v2__final", "__pycache__", "con", "aux.txt", "NUL", "a:b", "a<b>c", "q?.x", "pipe|name", "trail.", "trail ",
+    " lead", "COM1", "x\x1fy",
 ]
 
 
